@@ -3,6 +3,7 @@ package main
 import (
 	"fmt"
 	"os"
+	"strings"
 
 	flags "github.com/jessevdk/go-flags"
 )
@@ -33,6 +34,8 @@ func c09CfgFor(fault string) *DeclCfg {
 		cfg.Types = append(cfg.Types, TypeSpec{W: WFunc0Err}, TypeSpec{W: WFunc0Err}, TypeSpec{K: KString, W: WFunc1Err}, TypeSpec{K: KInt, W: WFunc1Err})
 	case "bad-env-choice":
 		cfg.PChoices = 60
+	case "bad-env-value":
+		cfg.Types = append(cfg.Types, TypeSpec{K: KInt, W: WSlice}, TypeSpec{K: KFloat64, W: WSlice}, TypeSpec{K: KInt, W: WSlicePtr})
 	case "bad-positional":
 		cfg.PPos, cfg.PCmds = 90, 50
 		cfg.PosTypes = []TypeSpec{{K: KInt}, {K: KInt}, {K: KFloat64}, {K: KDuration}, {K: KString}}
@@ -417,7 +420,16 @@ func injectFault(c *Ctx, r *Rand, d *Decl, sc *Scenario, fault string) (items []
 		}
 		o := cands[r.Intn(len(cands))]
 		o.Env = fmt.Sprintf("VH_%s_%d", c.P.ID, c.K)
-		os.Setenv(o.Env, map[string]string{"bad-env-value": "!!bad", "bad-env-choice": "not-a-choice"}[fault])
+		val := map[string]string{"bad-env-value": "!!bad", "bad-env-choice": "not-a-choice"}[fault]
+		if o.T.IsMulti() && r.Chance(2, 3) {
+			// several elements of which one - not the last - is bad ("0" is a good element of every candidate type)
+			o.EnvDelim = r.Pick([]string{",", ";"})
+			val = strings.Join([][]string{{val, "0"}, {"0", val, "0"}, {"0", "0", val, "0"}}[r.Intn(3)], o.EnvDelim)
+			if len(o.Choices) > 0 {
+				val = strings.ReplaceAll(val, "0", o.Choices[0])
+			}
+		}
+		os.Setenv(o.Env, val)
 		key := o.Env
 		c.Defer(func() { os.Unsetenv(key) })
 		wantType = map[string]flags.ErrorType{"bad-env-value": flags.ErrMarshal, "bad-env-choice": flags.ErrInvalidChoice}[fault]
